@@ -1,7 +1,9 @@
 #!/bin/bash
-# run each seeded mutant against the check(s) expected to catch it; writes /verif/seeded/RESULTS.txt
+# usage: tools_mutant_matrix.sh [id-regex] [outfile]
+# run each seeded change in seeded/MATRIX.txt (id, checks expected to report it) : apply to /repo, run the quick check, revert.
 cd /verif
-out=/verif/seeded/RESULTS.txt
+pat=${1:-.}
+out=${2:-/verif/seeded/RESULTS.txt}
 : > $out
 while read id checks; do
   for chk in $checks; do
@@ -14,45 +16,6 @@ while read id checks; do
     if echo "$res" | grep -q "^VIOLATION"; then verdict=CAUGHT; else verdict=MISSED; fi
     echo "$id $chk $verdict :: $res" >> $out
   done
-done <<LIST
-C01a C01
-C01b C01
-C02a C02
-C02b C02
-C03a C03 C02
-C03b C03
-C04a C04
-C04b C04
-C05a C05
-C05b C05
-C06a C07
-C06b C06
-C07a C07
-C07b C07
-C08a C08
-C08b C08
-C09a C01
-C09b C09
-C10a C10
-C10b C10
-C11a C11
-C11b C11
-C12a C12
-C12b C12
-C13a C13
-C13b C13
-C14a C14
-C14b C14
-C15a C15
-C15b C15
-C16a C16
-C16b C16
-C17a C17
-C17b C17
-C18a C18
-C18b C18
-C19a C19
-C19b C19
-LIST
+done < <(grep -E "^${pat}" /verif/seeded/MATRIX.txt)
 git -C /verif checkout -- evidence 2>/dev/null
 echo DONE >> $out
